@@ -282,10 +282,14 @@ class Monitor:
                 s.cmd('net_ep agg.example 3332 send=%s' % script)
                 self.ep_script = True
         elif a == 'clock':
-            d = rng.choice([1, 1, 2, max(self.snd_to, self.rcv_to, self.con_to) + 1])
+            # the wall clock mostly moves on; now and then it is stepped BACK (a manual or NTP correction): no time-out cause arises from that
+            d = rng.choice([1, 1, 2, max(self.snd_to, self.rcv_to, self.con_to) + 1, 1, 2, -1, -7, -3600])
             self.now += d
             s.cmd('clock %d' % self.now)
-            self.trace[-1] = 'clock+%d' % d
+            self.trace[-1] = 'clock%+d' % d
+            if d < 0:
+                self.r.count('clock_stepped_back')
+                self.max_now = max(getattr(self, 'max_now', 0), self.now - d)
         self.absorb_sent()
         self.time_causes()
         self.check_counts()
@@ -397,7 +401,8 @@ class Monitor:
             if not self.outstanding():
                 break
         if self.outstanding():
-            self.now += max(self.snd_to, self.rcv_to, self.con_to) + 2
+            # (after backward steps of the clock: first back to the latest time the client has ever seen - until then it may rightly sit still)
+            self.now = max(self.now, getattr(self, 'max_now', self.now)) + max(self.snd_to, self.rcv_to, self.con_to) + 2
             s.cmd('clock %d' % self.now)
             self.time_causes()
             for rnd in range(2 * self.cache + 4):
@@ -740,7 +745,8 @@ class HttpMonitor(Monitor):
             if not self.outstanding():
                 break
         if self.outstanding():
-            self.now += max(self.snd_to, self.rcv_to, self.con_to) + 2
+            # (after backward steps of the clock: first back to the latest time the client has ever seen - until then it may rightly sit still)
+            self.now = max(self.now, getattr(self, 'max_now', self.now)) + max(self.snd_to, self.rcv_to, self.con_to) + 2
             s.cmd('clock %d' % self.now)
             self.time_causes()
             for rnd in range(2 * self.cache + 4):
